@@ -18,6 +18,12 @@ CHECKS = {
              "by a correspondence check: the executable model and the real MAB are run on the same generated histories and "
              "must agree on predict_expectations, arms, and every sampler request (kind, stream, parameters).",
         ref="7 (C01)"),
+    "C02": dict(
+        text="Lean 4 proof (full for scale=False, exact arithmetic): lin_statistics/stat_linear (after any history each arm's model holds "
+             "A = lambda*I + sum x x^T and Xty = sum y x over exactly its rows; inverse and coefficients derived), linucb_columns, "
+             "reshape_rowwise + squeeze_counterexample (all m, d), k1_counterexample (known finding K1). np.linalg.inv = exact inverse with "
+             "run-time certificate A*Ainv = I; scale=True only by the numpy.linalg.solve oracle twin. Correspondence d in 1..3, m in 1..5.",
+        ref="7 (C02)"),
     "C03": dict(
         text="Lean 4 proof (full for exact metrics): radius_exact (selected rows = exactly those within the radius, boundary included), "
              "knn_override_valid (an alternative tie-break is accepted only if it is a valid set of k nearest rows), nhood_from_scratch "
@@ -42,6 +48,12 @@ CHECKS = {
              "and arms, in particular a fresh one (fit_after_history_eq_fresh). Neighbourhood-level resets (history, hash tables and planes, "
              "clusters, trees) are transcribed in the model and tied by correspondence on refit scenarios and refit-vs-fresh twins.",
         ref="7 (C07)"),
+    "C08": dict(
+        text="Lean 4 proof (full): keys_eq_arms (dictionary keys = current arms in arm-list order after any history; arm list follows the "
+             "specification), predictExp_keys (every returned dictionary has those keys, any tape), predict_mem, unwrap_shape. "
+             "Correspondence compares arms, key order and result shape after every step (int/float/str labels); invariant twin under "
+             "n_jobs in {1,2,3}.",
+        ref="7 (C08)"),
     "C09": dict(
         text="Lean 4 proof (full): argmax_first (first key attaining the maximum, any total transitive comparison), predict_eq_argmax "
              "(predict is that arg-max of the expectations computed from the same state and draws). Correspondence on predict outputs; "
@@ -69,11 +81,22 @@ CHECKS = {
              "each gets an exact copy of its closest trained arm within the quantile threshold, other arms keep state and status. "
              "Correspondence on histories with warm_start (cold_arms after every op); twins for idempotence and quantile monotonicity.",
         ref="7 (C13)"),
+    "C14": dict(
+        text="Lean 4 proof (full except TreeBandit): fit_binarizer_once / partialFit_binarizer_once for every binarizer function, "
+             "np_binarize_once (neighbourhood policies convert on arrival and never again), addArm_new_binarizer; "
+             "tree_binarizer_twice_counterexample witnesses known finding K2. Correspondence with arm-dependent and non-idempotent "
+             "binarizers under every neighbourhood policy; twin binarizer vs pre-converted rewards.",
+        ref="7 (C14)"),
     "C17": dict(
         text="Lean 4 proof (full for the modelled rejection classes): rejected_noop - for every state, op, argument, oracle, tape: a rejected "
              "call returns the identical state and random streams. Malformed calls of every class at random positions: model vs "
              "implementation, and continuation-on-bandit vs continuation-on-copy-taken-before twins.",
         ref="7 (C17)"),
+    "C20": dict(
+        text="Lean 4 proof (full for context-free policies, exact arithmetic): fit_perm / partialFit_perm (any row permutation gives the "
+             "identical state), shift_greedy, shift_ucb, shift_softmax_invariant, addXty_scale. Relabelling is the model's parametricity "
+             "(not machine-checked) tied by int<->str<->float relabelled twins; permuted / shifted / scaled twins on the code.",
+        ref="7 (C20)"),
 }
 for _c in CHECKS.values():
     _c.setdefault("note", NOTE)
